@@ -13,6 +13,8 @@ func (c *Conversation) processDisconnectedTLV(t tlv, x dataMessageExtra) (toSend
 	// the last message of the ended session must not be resent in a later one
 	c.resend.clear()
 
+	// erase the session's secrets, do not just drop the references to them
+	c.keys.wipe()
 	c.keys = keyManagementContext{}
 
 	return nil, nil
